@@ -692,8 +692,9 @@ class Laplacian(PointwiseTensorFieldOperator):
         if range is None:
             range = domain
 
+        linear = not (pad_mode == 'constant' and pad_const != 0)
         super(Laplacian, self).__init__(
-            domain, range, base_space=domain, linear=True)
+            domain, range, base_space=domain, linear=linear)
 
         self.pad_mode, pad_mode_in = str(pad_mode).lower(), pad_mode
         if pad_mode not in _SUPPORTED_PAD_MODES:
